@@ -44,6 +44,20 @@ CHECKS["C20"] = dict(
               "configuration item and on the observed tokenise/parse/encoding behaviour",
 )
 
+CHECKS["C05"] = dict(
+    text="TLC checks the number-scanning rules of the lexer specification (no character lost, documented splitting, "
+         "maximal tokens) for every digit/point string up to the bound and the BigNat/Denote definitions against "
+         "native arithmetic; every literal of the tier's domain is run alone on the real transpiler and TLC compares "
+         "the number of pushed values, their type class and their exact value (cross-multiplied BigNat) with the "
+         "denotation of the reference lexer's tokens.",
+    note="Trusted: VyLexer number rules, VyNumber.Denote (PointIsHalf, trailing point ignored), BigNat limb "
+         "arithmetic (itself checked exhaustively on <= 4 digits). In its transcribed-function form: the ∀ is over "
+         "inputs, not interleavings. Known finding: sympy.nsimplify(str) lowering is inexact (known_findings.json).",
+    ref="DESIGN.md section 6 C05",
+    technique="TLA+ spec (VyLexer number branch, VyNumber, BigNat) model-checked by TLC + TLC evaluation of "
+              "Denote on every observed literal",
+)
+
 NOT_APPLICABLE = {}
 
 DEFAULT_NA = ("check under construction in this round; it will be claimed when its TLA+ module and "
